@@ -435,6 +435,33 @@ def run(ctx, rep):
     rep.guarded('D7.d7', d7, ctx, rep)
     rep.guarded('D9.d9', d9, ctx, rep)
     rep.guarded('D8.d8', d8, ctx, rep)
+    rep.guarded('D10.d10', d10, ctx, rep)
+
+
+def d10(ctx, rep):
+    """JSON clause: sequences placed in the dicts of the JSON-documented models hold Python scalars, not NumPy scalars."""
+    from ..nativekind import elements
+    prog = ctx.prog
+    rep.rule('D10.json', 'a list stored as it is in the dict of a JSON-documented model (bivariate, Gaussian multivariate, univariate) holds Python scalars: '
+             'its elements do not come from iterating an ndarray (numpy.int64 / numpy.bool_ labels are refused by json)')
+    n = 0
+    for clsq in ('copulas.bivariate.base.Bivariate', 'copulas.multivariate.gaussian.GaussianMultivariate', 'copulas.univariate.base.Univariate'):
+        w = prog.method(clsq, 'to_dict')
+        for k, v in sorted(writer_table(ctx, w).items()):
+            tag, attr, _ = writer_transform(ctx, w, v)
+            if tag != 'id' or attr is None:
+                continue
+            e = _inline(w, v)
+            kind = elements(ctx, w, e)
+            if kind is None:
+                continue
+            n += 1
+            rep.check('D10.json', w, v, kind == 'py', f"'{k}': elements are Python objects",
+                      f"'{k}' (self.{attr}) is a list of NumPy scalars (its elements come from iterating an ndarray such as `.to_numpy()` / `.values` / `np.unique`): "
+                      'for integer labels json.dumps(model.to_dict()) raises TypeError', construct=f"'{k}' element type")
+    if n == 0:
+        rep.undecided('D10.json', prog.method('copulas.multivariate.gaussian.GaussianMultivariate', 'to_dict'), 'to_dict',
+                      'no list-valued entry whose element type could be derived', construct='element types')
 
 
 def pair(ctx, rep, cls, w, r):
